@@ -402,6 +402,16 @@ def mon_c04(k, domain, check_ip, offered, up_frames, wildcard=False, srv="srv"):
         kind, who, kw = ev[1], ev[2], ev[3]
         if who != srv:
             continue
+        if kind == "tun_write":
+            # a packet a session sent upstream has just been accepted and written out: that session is active now
+            # (raw data has no acknowledgement on the wire; this is the only proof of its acceptance)
+            rec = up_frames.get(bytes(kw["data"]))
+            if rec is not None and rec.get("own") and slot.get(rec["slot"]) is not None:
+                s = slot[rec["slot"]]
+                if rec["t"] >= s.get("vack_t", 0):
+                    s["last_ok_s"] = max(s["last_ok_s"], sec(ev[0]))
+                    st["c04_activity_by_accepted_data"] = st.get("c04_activity_by_accepted_data", 0) + 1
+            continue
         if kind == "recv":
             d = kw["data"]
             now_s = sec(ev[0])
